@@ -21,6 +21,10 @@
    whatever SendToReplicas says; retries of a batch stay on the connection, retries of a single command pick again;
    a transaction hit by a retryable error counts as a redirect; in `do` the connection compared by redirectOrNew is
    always the one picked first; ASK-redirected members that are retried lose their ASKING.
+   Round 2 (after the seeded changes, see design/cluster.md): the transaction flag hasInit is modelled as the value doretry
+   hands to doresultfn (`tx` in Proc); DoStream / DoMultiStream (kinds stream / multistream) and commands without a key
+   (class "n"); report entries of shards whose master is not online; an ASK target that bounces an ASKING command with
+   MOVED (second hop); `pool` = what a pooled retry object carries from one call to the next.
    FixDenied = FALSE is doresultfn / resultcachefn as found in the pinned commit (#14): a member whose RetryDelay
    answer was negative is still put into retries.m and is re-sent when another member of the batch causes a new round. *)
 EXTENDS Integers, Sequences, FiniteSets, TLC
@@ -33,19 +37,26 @@ CONSTANTS OptSet,          \* MC: option records the initial state chooses from
           LazyMidCall,     \* MC: the lazy refresh may also run in the middle of a call
           EagerLazy,       \* MC (scenario generation): an armed lazy refresh runs before the next call / topology change
           FixDenied,
-          BugAskNoAsking, BugTxNoMulti, BugPredIgnored, BugNodeOrder, BugMovedIgnored, BugMaxOffByOne, BugSelClamp
+          BugAskNoAsking, BugTxNoMulti, BugPredIgnored, BugNodeOrder, BugMovedIgnored, BugMaxOffByOne, BugSelClamp,
+          \* round 2 (re-introduced defects of the classes the seeded changes stand for)
+          BugRefreshDropsInit,   \* pickMulti forgets that the batch holds key-less commands when it had to refresh before picking
+          BugAskRunNoInit,       \* doresultfn over the replies of the ASK sub-batch runs without transaction detection
+          BugPoolStale,          \* the pooled retry / retrycache object keeps the length of its ASK index list from its previous use
+          BugStreamKeyless,      \* DoMultiStream does not ask SendToReplicas about commands without a key
+          BugPromoteReplica      \* a shard whose master is not online is kept with its first online replica as primary
 
 VARIABLES truth, migr, stale, report, down, inj,                       \* environment
           opt, known, gen, ro, wmap, rgrp, rsel, lazy,                  \* client: options and learned topology
           ph, call, pk, pg, cc0, todo, run, nextm, redirs, rdelay, redirects, attempts, res, fresh,   \* client: the call in progress
           hist, nlog,                                                   \* observation of the call in progress
-          calls, changes, script                                        \* bookkeeping (script: behaviour for the Go driver)
+          calls, changes, script,                                       \* bookkeeping (script: behaviour for the Go driver)
+          pool                                                          \* client, across calls: stale ASK index entries left in the pooled retry object (0 unless BugPoolStale)
 
 envv  == <<truth, migr, stale, report, down>>
 mapv  == <<known, gen, ro, wmap, rgrp, rsel>>
 callv == <<ph, call, pk, pg, cc0, todo, run, nextm, redirs, rdelay, redirects, attempts, res, fresh>>
 obsv  == <<hist, nlog>>
-vars  == <<envv, inj, opt, mapv, lazy, callv, obsv, calls, changes, script>>
+vars  == <<envv, inj, opt, mapv, lazy, callv, obsv, calls, changes, script, pool>>
 
 \* ------------------------------------------------------------------------------------------------- universe
 None   == "-"
@@ -62,29 +73,45 @@ NoKey  == <<None, 0>>
 Range(s) == {s[i] : i \in 1..Len(s)}
 Idx(n) == [i \in 1..n |-> i]
 Min(S) == CHOOSE x \in S : \A y \in S : x <= y
+Max(S) == CHOOSE x \in S : \A y \in S : x >= y
 EmptyF == <<>>
 Put(f, k, v) == [x \in (DOMAIN f) \cup {k} |-> IF x = k THEN v ELSE f[x]]
 
 NoRes == [k |-> "none", n |-> None, to |-> None, id |-> 0, ids |-> <<>>]
 NoSlotRes == [k |-> "noslot", n |-> None, to |-> None, id |-> 0, ids |-> <<>>]
 
-\* a call: [kind, mem, inj, migrated, deny]; a member: [s |-> slot or -1, c |-> "r" | "w" | "M" | "E", o |-> SendToReplicas(cmd)]
+\* a call: [kind, mem, inj, migrated, deny]; a member: [s |-> slot or -1, c |-> "r" | "w" | "M" | "E" | "n", o |-> SendToReplicas(cmd)]
+\* ("n" = a command without a key that is neither MULTI nor EXEC, e.g. PUBLISH / ECHO: every node serves it)
+\* kinds: do docache multi multicache, and stream / multistream (DoStream / DoMultiStream: one node, the replies are handed
+\* to the caller as they come - no redirect is followed, nothing is retried, no refresh is armed)
 Single   == call.kind \in {"do", "docache"}
+Stream   == call.kind \in {"stream", "multistream"}
 CacheK   == call.kind \in {"docache", "multicache"}
 Unordered == call.kind = "multicache"      \* mux.DoMultiCache spreads a sub-batch over the multiplexed connections
 NMem     == Len(call.mem)
 IsM(i)   == call.mem[i].c = "M"
 IsE(i)   == call.mem[i].c = "E"
-HasInit  == \E i \in 1..NMem : call.mem[i].c \in {"M", "E"}
+\* `init` of _pickMulti: some command of the batch has no slot (MULTI, EXEC, PUBLISH ...)
+HasInit  == \E i \in 1..NMem : call.mem[i].c \in {"M", "E", "n"}
 Keyed(i) == call.mem[i].c \in {"r", "w"}
 FirstKeyedSlot == IF \E i \in 1..NMem : Keyed(i) THEN call.mem[Min({i \in 1..NMem : Keyed(i)})].s ELSE -1
-SlotOf(i) == IF Keyed(i) THEN call.mem[i].s ELSE FirstKeyedSlot
+\* a DoMulti batch without any key goes to the first slot that has a connection ("we pick a non-nil slot")
+AnySlot  == IF \E s \in Slots : wmap[s] # NoKey THEN Min({s \in Slots : wmap[s] # NoKey}) ELSE -1
+SlotOf(i) == IF Keyed(i) THEN call.mem[i].s
+             ELSE IF FirstKeyedSlot # -1 THEN FirstKeyedSlot
+             ELSE IF call.kind = "multi" THEN AnySlot ELSE -1
 Retryable(i) == call.mem[i].c = "r"
 Denied(i) == i \in call.deny \/ attempts >= MaxAtt           \* RetryDelay(attempts, cmd, err) < 0
 OpOf(i) == IF IsM(i) THEN "multi" ELSE IF IsE(i) THEN "exec" ELSE "cmd"
 ModeOf(rep) == CASE rep = "moved" -> "moved" [] rep = "ask" -> "ask" [] rep \in {"retry", "neterr"} -> "retry" [] OTHER -> "none"
 
 \* ------------------------------------------------------------------------------------------------- _refresh
+\* A report entry [p |-> None, rs |-> <<..>>] with replicas stands for a shard whose master is listed but not online
+\* (CLUSTER SHARDS health fail / loading - the window of a failover): the client must drop the whole shard, the slot has
+\* no owner and the replicas are not dialled.
+Usable(r) == [s \in Slots |-> IF r[s].p # None THEN r[s]
+                               ELSE IF BugPromoteReplica /\ r[s].rs # <<>> THEN [p |-> Head(r[s].rs), rs |-> Tail(r[s].rs)]
+                               ELSE [p |-> None, rs |-> <<>>]]
 RNodes(r) == ({r[s].p : s \in Slots} \cup UNION {Range(r[s].rs) : s \in Slots}) \ {None}
 RRepl(r)  == UNION {Range(r[s].rs) : s \in Slots}
 
@@ -93,8 +120,9 @@ RRepl(r)  == UNION {Range(r[s].rs) : s \in Slots}
 \* left unresolved (Unres) and are resolved when the slot is first used (action Resolve): the choice is not observable
 \* earlier.
 Unres == <<"?", 0>>
-Learn(o, r, kn0, gn0, ro0) ==
-    LET newKnown == RNodes(r) \cup InitAddr
+Learn(o, r0, kn0, gn0, ro0) ==
+    LET r == Usable(r0)
+        newKnown == RNodes(r) \cup InitAddr
         created  == newKnown \ kn0
         g2 == [n \in Node |-> IF n \in created THEN gn0[n] + 1 ELSE gn0[n]]
         K(n) == <<n, g2[n]>>
@@ -116,10 +144,14 @@ ApplyReport(r) ==
     /\ known' = L.known /\ gen' = L.gen /\ ro' = L.ro /\ wmap' = L.wmap /\ rgrp' = L.rgrp /\ rsel' = L.rsel
 
 \* ------------------------------------------------------------------------------------------------- _pick
+\* DoMultiStream: the whole batch goes to one node, to a replica only when SendToReplicas says yes for every command
+AllOpt == \A j \in 1..NMem : call.mem[j].o \/ (BugStreamKeyless /\ ~Keyed(j))
 PickKey(i) ==
-    LET s == SlotOf(i) m == call.mem[i] IN
+    LET s == SlotOf(i) m == call.mem[i]
+        repl == IF call.kind = "multistream" THEN AllOpt ELSE (m.o \/ BugPredIgnored) /\ ~HasInit
+    IN
     IF s = -1 THEN NoKey
-    ELSE IF opt.mode = "sendto" /\ (m.o \/ BugPredIgnored) /\ ~HasInit
+    ELSE IF opt.mode = "sendto" /\ repl
          THEN IF opt.selKind = "rns"
               THEN LET g == rgrp[s] IN
                    IF g = <<>> THEN NoKey
@@ -149,7 +181,7 @@ Resolve ==
               IF wmap[s] = Unres /\ opt.mode = "replicaonly"
               THEN wmap' = [wmap EXCEPT ![s] = rgrp[s][j]] /\ UNCHANGED rsel
               ELSE rsel' = [rsel EXCEPT ![s] = rgrp[s][j]] /\ UNCHANGED wmap
-    /\ UNCHANGED <<envv, inj, opt, known, gen, ro, rgrp, lazy, callv, obsv, calls, changes, script>>
+    /\ UNCHANGED <<envv, inj, opt, known, gen, ro, rgrp, lazy, callv, obsv, calls, changes, script, pool>>
 
 Pick == /\ ph = "pick"
         /\ \A i \in 1..NMem : PickKey(i) # Unres
@@ -163,7 +195,7 @@ Pick == /\ ph = "pick"
                 /\ StartRound([k \in {keys[i] : i \in 1..NMem} |->
                                   [c |-> SelectSeq(Idx(NMem), LAMBDA i : keys[i] = k), a |-> <<>>]])
                 /\ UNCHANGED res
-        /\ UNCHANGED <<envv, inj, opt, mapv, lazy, call, redirects, attempts, fresh, obsv, calls, changes, script>>
+        /\ UNCHANGED <<envv, inj, opt, mapv, lazy, call, redirects, attempts, fresh, obsv, calls, changes, script, pool>>
 
 \* ------------------------------------------------------------------------------------------------- one command at a node
 \* connection k receives the command at position p of its sub-batch and answers rp = [rep, to]; cn is the server-side
@@ -216,10 +248,13 @@ DoRes(k, lst, rps, i, acc) ==
     IF i > Len(lst) THEN acc ELSE
     LET ii == lst[i]
         rp == rps[i]
-        acc1 == [acc EXCEPT !.rs[ResIdx(ii)] = MkRes(k, rp), !.lz = @ \/ ModeOf(rp.rep) # "none"]
+        \* BugPoolStale: the index list starts with acc.off stale zeros, so reply i is filed under the index at i - off
+        ri == IF i <= acc.off THEN 1 ELSE ResIdx(lst[i - acc.off])
+        acc1 == [acc EXCEPT !.rs[ri] = MkRes(k, rp), !.lz = @ \/ ModeOf(rp.rep) # "none"]
         mode == ModeOf(rp.rep)
         denied == mode = "retry" /\ Denied(ii)
-    IN  IF mode = "none" THEN DoRes(k, lst, rps, i + 1, acc1)
+    IN  IF Stream THEN DoRes(k, lst, rps, i + 1, [acc EXCEPT !.rs[ri] = MkRes(k, rp)])
+        ELSE IF mode = "none" THEN DoRes(k, lst, rps, i + 1, acc1)
         ELSE IF mode = "retry" /\ (~opt.retryOn \/ ~(Retryable(ii) \/ CacheK)) THEN DoRes(k, lst, rps, i + 1, acc1)
         ELSE IF denied /\ (FixDenied \/ Single) THEN DoRes(k, lst, rps, i + 1, acc1)
         ELSE IF Single /\ mode # "retry" /\ Exceeds(redirects + 1)
@@ -229,7 +264,7 @@ DoRes(k, lst, rps, i, acc) ==
                   THEN [key |-> k, kn |-> acc1.kn, gn |-> acc1.gn, wm |-> acc1.wm, ro |-> acc1.ro]
                   ELSE RedirectOrNew(rp.to, IF Single THEN cc0 ELSE k, SlotOf(ii), mode, acc1)
             nc == rn.key
-            scan == HasInit /\ acc1.ei < i
+            scan == acc1.tx /\ acc1.ei < i
             mi2 == IF scan THEN ScanBack(lst, i) ELSE acc1.mi
             ei2 == IF scan THEN ScanFwd(lst, i) ELSE acc1.ei
             acc2 == [acc1 EXCEPT !.kn = rn.kn, !.gn = rn.gn, !.wm = rn.wm, !.ro = rn.ro, !.mi = mi2, !.ei = ei2]
@@ -237,7 +272,7 @@ DoRes(k, lst, rps, i, acc) ==
         IN  IF txFound
             THEN DoRes(k, lst, rps, i + 1, [acc2 EXCEPT !.rd = TRUE,
                           !.nx = AddTo(@, nc, mode = "ask", SubSeq(lst, IF BugTxNoMulti THEN mi2 + 1 ELSE mi2, ei2))])
-            ELSE IF HasInit /\ mi2 < i /\ i < ei2 /\ mi2 >= 1 /\ IsM(lst[mi2])
+            ELSE IF acc1.tx /\ mi2 < i /\ i < ei2 /\ mi2 >= 1 /\ IsM(lst[mi2])
             THEN DoRes(k, lst, rps, i + 1, acc2)
             ELSE DoRes(k, lst, rps, i + 1, [acc2 EXCEPT !.rd = @ \/ mode # "retry", !.dl = @ \/ (mode = "retry" /\ ~denied),
                           !.nx = AddTo(@, nc, mode = "ask", <<ii>>)])
@@ -247,14 +282,17 @@ DoRes(k, lst, rps, i, acc) ==
 Proc(k) ==
     /\ ph = "round" /\ k \in DOMAIN run /\ run[k].st \in {"c", "a"} /\ run[k].pp = {}
     /\ LET rn == run[k]
+           \* hasInit as doretry hands it to doresultfn
+           tx == HasInit /\ ~(BugRefreshDropsInit /\ fresh) /\ ~(BugAskRunNoInit /\ rn.st = "a")
            acc == DoRes(k, rn.lst, rn.r, 1, [nx |-> nextm, rd |-> redirs, dl |-> rdelay, mi |-> 0, ei |-> 0, rs |-> res,
-                                              kn |-> known, gn |-> gen, wm |-> wmap, ro |-> ro, lz |-> lazy])
+                                              kn |-> known, gn |-> gen, wm |-> wmap, ro |-> ro, lz |-> lazy, tx |-> tx,
+                                              off |-> IF BugPoolStale /\ rn.st = "a" /\ ~Single THEN pool ELSE 0])
        IN /\ nextm' = acc.nx /\ redirs' = acc.rd /\ rdelay' = acc.dl /\ res' = acc.rs
           /\ known' = acc.kn /\ gen' = acc.gn /\ wmap' = acc.wm /\ ro' = acc.ro /\ lazy' = acc.lz
           /\ run' = [run EXCEPT ![k] = IF rn.st = "c" /\ todo[k].a # <<>>
                                        THEN StartRun([c |-> <<>>, a |-> todo[k].a])
                                        ELSE [rn EXCEPT !.st = "x"]]
-    /\ UNCHANGED <<envv, inj, opt, rgrp, rsel, ph, call, pk, pg, cc0, todo, redirects, attempts, fresh, obsv, calls, changes, script>>
+    /\ UNCHANGED <<envv, inj, opt, rgrp, rsel, ph, call, pk, pg, cc0, todo, redirects, attempts, fresh, obsv, calls, changes, script, pool>>
 
 RoundEnd ==
     /\ ph = "round" /\ \A k \in DOMAIN run : run[k].st = "x"
@@ -270,7 +308,7 @@ RoundEnd ==
             /\ IF Single THEN ph' = "pick" /\ UNCHANGED <<todo, run, nextm, redirs, rdelay>>
                ELSE StartRound(nextm)
        ELSE ph' = "done" /\ UNCHANGED <<todo, run, nextm, redirs, rdelay, redirects, attempts>>
-    /\ UNCHANGED <<envv, inj, opt, mapv, lazy, call, pk, pg, cc0, res, fresh, obsv, calls, changes, script>>
+    /\ UNCHANGED <<envv, inj, opt, mapv, lazy, call, pk, pg, cc0, res, fresh, obsv, calls, changes, script, pool>>
 
 \* ------------------------------------------------------------------------------------------------- environment: a node answers
 Migrating(s) == migr[s] # None
@@ -283,7 +321,11 @@ EnvKeyed(k, e) ==
         entitled == \/ n = truth[s] /\ ~moved
                     \/ n = migr[s] /\ e.ask
                     \/ n \in Repl /\ PrimOf(n) = truth[s] /\ k \in ro /\ m.c = "r" /\ ~moved
+        \* the ASK target does not know yet (or no longer) that it imports the slot: ASKING does not help, it answers MOVED
+        \* according to its own stale view (second hop of a redirected command)
+        bounce == n = migr[s] /\ e.ask /\ n \in Prim /\ stale[n][s] # <<>>
     IN  IF truth[s] = None THEN [rep |-> "retry", to |-> None]                         \* CLUSTERDOWN Hash slot not served
+        ELSE IF bounce THEN [rep |-> "moved", to |-> Head(stale[n][s])]
         ELSE IF entitled
              THEN IF inj[e.i] # <<>> THEN [rep |-> "retry", to |-> None]                \* LOADING / TRYAGAIN / CLUSTERDOWN
                   ELSE IF run[k].intx /\ ~CacheK THEN [rep |-> "queued", to |-> None] ELSE [rep |-> "val", to |-> None]
@@ -293,6 +335,7 @@ EnvKeyed(k, e) ==
 
 EnvRep(k, e) == CASE e.op = "multi" -> [rep |-> "ok", to |-> None]
                   [] e.op = "exec"  -> IF run[k].dirty THEN [rep |-> "abort", to |-> None] ELSE [rep |-> "exec", to |-> None]
+                  [] e.op = "cmd" /\ ~Keyed(e.i) -> IF run[k].intx THEN [rep |-> "queued", to |-> None] ELSE [rep |-> "val", to |-> None]
                   [] OTHER -> EnvKeyed(k, e)
 
 ActiveKeys == {k \in DOMAIN run : run[k].st \in {"c", "a"} /\ run[k].pp # {}}
@@ -310,7 +353,7 @@ NodeRecv(k) ==
           /\ stale' = IF e.op = "cmd" /\ rp.rep = "moved" /\ n \in Prim /\ stale[n][call.mem[e.i].s] # <<>>
                       THEN [stale EXCEPT ![n][call.mem[e.i].s] = Tail(@)] ELSE stale
     /\ UNCHANGED <<truth, migr, report, down, opt, mapv, lazy, ph, call, pk, pg, cc0, todo, nextm, redirs, rdelay, redirects, attempts,
-                   res, fresh, calls, changes, script>>
+                   res, fresh, calls, changes, script, pool>>
 
 \* the node is dead: the whole sub-batch fails with a connection error
 NetFail(k) ==
@@ -318,10 +361,13 @@ NetFail(k) ==
     /\ run' = [run EXCEPT ![k] = [@ EXCEPT !.pp = {},
                   !.r = [j \in 1..Len(@) |-> IF j \in run[k].pp THEN [rep |-> "neterr", to |-> None, i |-> run[k].w[j].i, ids |-> <<>>] ELSE @[j]]]]
     /\ UNCHANGED <<envv, inj, opt, mapv, lazy, ph, call, pk, pg, cc0, todo, nextm, redirs, rdelay, redirects, attempts, res, fresh,
-                   obsv, calls, changes, script>>
+                   obsv, calls, changes, script, pool>>
 
 \* ------------------------------------------------------------------------------------------------- environment: calls, refresh, topology changes
-ReportOf(t, dn) == [s \in Slots |-> [p |-> t[s], rs |-> IF t[s] = None THEN <<>> ELSE SelectSeq(ReplSeq(t[s]), LAMBDA x : x \notin dn)]]
+\* mf: primaries the nodes list with health fail / loading (their shards have no usable master)
+ReportOfF(t, dn, mf) == [s \in Slots |-> [p |-> IF t[s] \in mf THEN None ELSE t[s],
+                                          rs |-> IF t[s] = None THEN <<>> ELSE SelectSeq(ReplSeq(t[s]), LAMBDA x : x \notin dn)]]
+ReportOf(t, dn) == ReportOfF(t, dn, {})
 
 Call(c) ==
     /\ ph = "idle" /\ calls < MaxCalls /\ (EagerLazy => ~lazy)
@@ -329,7 +375,7 @@ Call(c) ==
     /\ res' = [i \in 1..Len(c.mem) |-> NoRes] /\ hist' = [i \in 1..Len(c.mem) |-> <<>>] /\ nlog' = EmptyF
     /\ redirects' = 0 /\ attempts' = 1 /\ todo' = EmptyF /\ run' = EmptyF /\ nextm' = EmptyF /\ redirs' = FALSE /\ rdelay' = FALSE
     /\ pk' = <<>> /\ pg' = <<>> /\ cc0' = NoKey
-    /\ UNCHANGED <<envv, opt, mapv, lazy, calls, changes, script>>
+    /\ UNCHANGED <<envv, opt, mapv, lazy, calls, changes, script, pool>>
 
 Return ==
     /\ ph = "done" /\ ph' = "idle" /\ calls' = calls + 1
@@ -337,6 +383,11 @@ Return ==
                                  migrated |-> call.migrated, deny |-> call.deny, res |-> res])
     /\ UNCHANGED <<envv, inj, opt, mapv, lazy, call, pk, pg, cc0, todo, run, nextm, redirs, rdelay, redirects, attempts, res, fresh,
                    obsv, changes>>
+    \* BugPoolStale: the retry object that collected the ASK-redirected members goes back to the pool with its index list
+    \* zeroed but not shortened
+    /\ pool' = IF BugPoolStale /\ ~Single /\ ~Stream
+               THEN Max({0} \cup {Cardinality({i \in 1..NMem : \E j \in 1..Len(hist[i]) : hist[i][j].ask /\ hist[i][j].n = n}) : n \in Node})
+               ELSE 0
 
 \* lazyRefresh (after any redirect / retryable error) and the refresh pick() runs when it finds no node
 Refresh ==
@@ -345,7 +396,7 @@ Refresh ==
     /\ ApplyReport(report)
     /\ lazy' = FALSE /\ fresh' = (ph = "pick")
     /\ script' = IF ph = "idle" THEN Append(script, [t |-> "refresh"]) ELSE script
-    /\ UNCHANGED <<envv, inj, opt, ph, call, pk, pg, cc0, todo, run, nextm, redirs, rdelay, redirects, attempts, res, obsv, calls, changes>>
+    /\ UNCHANGED <<envv, inj, opt, ph, call, pk, pg, cc0, todo, run, nextm, redirs, rdelay, redirects, attempts, res, obsv, calls, changes, pool>>
 
 NoStale == [n \in Prim |-> [s \in Slots |-> <<>>]]
 \* a topology change between two calls: ownership, migrations, stale views of non-owners, dead nodes; `lag` = the nodes
@@ -353,9 +404,11 @@ NoStale == [n \in Prim |-> [s \in Slots |-> <<>>]]
 Change(c) ==
     /\ ph = "idle" /\ changes < MaxChanges /\ calls < MaxCalls /\ changes' = changes + 1 /\ (EagerLazy => ~lazy)
     /\ truth' = c.truth /\ migr' = c.migr /\ stale' = c.stale /\ down' = c.down
-    /\ report' = IF c.lag THEN report ELSE ReportOf(c.truth, c.down)
+    \* c.rt: the ownership the nodes report (normally the truth; a report that is wrong from the start gives a redirect
+    \* right after a refresh), c.mfail: primaries reported as failed
+    /\ report' = IF c.lag THEN report ELSE ReportOfF(c.rt, c.down, c.mfail)
     /\ script' = Append(script, [t |-> "topo", truth |-> truth', migr |-> migr', stale |-> stale', report |-> report', down |-> down'])
-    /\ UNCHANGED <<inj, opt, mapv, lazy, callv, obsv, calls>>
+    /\ UNCHANGED <<inj, opt, mapv, lazy, callv, obsv, calls, pool>>
 
 Truth0 == [s \in Slots |-> CASE s = 0 -> "a" [] s = 1 -> "b" [] s = 2 -> "c" [] OTHER -> None]
 
@@ -368,7 +421,7 @@ Init ==
     /\ ph = "idle" /\ call = [kind |-> "do", mem |-> <<>>, inj |-> <<>>, migrated |-> {}, deny |-> {}]
     /\ pk = <<>> /\ pg = <<>> /\ cc0 = NoKey /\ todo = EmptyF /\ run = EmptyF /\ nextm = EmptyF /\ redirs = FALSE /\ rdelay = FALSE
     /\ redirects = 0 /\ attempts = 1 /\ res = <<>> /\ fresh = FALSE /\ hist = <<>> /\ nlog = EmptyF
-    /\ calls = 0 /\ changes = 0 /\ script = <<>>
+    /\ calls = 0 /\ changes = 0 /\ script = <<>> /\ pool = 0
 
 Next == \/ \E c \in CallSet : Call(c)
         \/ Pick \/ Resolve \/ Refresh \/ RoundEnd \/ Return
@@ -387,7 +440,6 @@ RedirRep(h) == h.rep \in {"moved", "ask"}
 Followed(i) == Cardinality({j \in 1..(Sends(i) - 1) : RedirRep(hist[i][j])})
 
 \* the members of the transaction block that contains member i (empty when i is outside MULTI ... EXEC)
-Max(S) == CHOOSE x \in S : \A y \in S : x >= y
 BlockOf(i) == LET ms == {j \in 1..i : IsM(j) /\ \A x \in j..(i - 1) : ~IsE(x)}
                   es == {j \in i..NMem : IsE(j) /\ \A x \in (i + 1)..j : ~IsM(x)}
               IN IF ms = {} \/ es = {} THEN {} ELSE Max(ms)..Min(es)
@@ -404,7 +456,7 @@ TypeOK == /\ ph \in {"idle", "pick", "round", "done"}
 \* answered MOVED - observed on the real client with a ReplicaOnly client whose block holds a read and a write).
 Leads(i, j) == \A m \in BlockOf(i) : (m < i /\ Sends(m) >= j) => ModeOf(hist[m][j].rep) = "none"
 RedirectFollowed ==
-    Active => \A i \in Mem :
+    Active /\ ~Stream => \A i \in Mem :
         /\ \A j \in 1..(Sends(i) - 1) :
               LET h == hist[i][j] nx == hist[i][j + 1] IN
               (RedirRep(h) /\ Leads(i, j)) => /\ nx.n = h.to
@@ -427,12 +479,12 @@ LegitFail(i) == \/ res[i].k \in {"moved", "ask"} /\ opt.maxMoved > 0 /\ redirect
                 \/ res[i].k \in {"queued"}
                 \/ HasInit /\ i \in UNION {BlockOf(j) : j \in Mem}      \* judged through the EXEC reply
 ReachesOwner ==
-    /\ Active => \A i \in Mem : res[i].k = "val" => Entitled(i, res[i].n)
-    /\ ph = "done" => \A i \in Mem : Keyed(i) => (res[i].k = "val" \/ LegitFail(i))
+    /\ Active => \A i \in Mem : (Keyed(i) /\ res[i].k = "val") => Entitled(i, res[i].n)
+    /\ ph = "done" /\ ~Stream => \A i \in Mem : Keyed(i) => (res[i].k = "val" \/ LegitFail(i))
     /\ ph = "done" => \A i \in Mem : (IsE(i) /\ res[i].k = "exec") => (res[i].ids = SelectSeq(Idx(NMem), LAMBDA j : j \in BlockOf(i) /\ Keyed(j)))
 \* retryable errors end a call only when retrying is not allowed
 RetryHonoured ==
-    ph = "done" => \A i \in Mem :
+    ph = "done" /\ ~Stream => \A i \in Mem :
         (res[i].k = "retry" /\ Keyed(i) /\ ~HasInit /\ ~(opt.maxMoved > 0 /\ redirects > opt.maxMoved))
             => (~opt.retryOn \/ ~(Retryable(i) \/ CacheK) \/ Denied(i) \/ i \in call.deny \/ attempts >= MaxAtt)
 
@@ -452,14 +504,17 @@ TxResentWhole ==
         /\ \A x \in 1..Sends(i) : hist[i][x].n = hist[j][x].n /\ hist[i][x].g = hist[j][x].g /\ hist[i][x].ask = hist[j][x].ask
 
 \* C21 ------------------------------------------------------------------------------------------------
+\* DoMultiStream is a one-node batch: it may go to a replica only when SendToReplicas answers true for every command of it,
+\* also for the ones without a key; a DoMulti batch that holds a command without a key stays on the primary
+OptedIn(i) == IF call.kind = "multistream" THEN \A j \in Mem : call.mem[j].o ELSE call.mem[i].o /\ ~HasInit
 ReplicaOnlyWhenOptedIn ==
     Active => \A i \in Mem : \A j \in 1..Sends(i) :
-        hist[i][j].n \in Repl => (opt.mode = "replicaonly" \/ (opt.mode = "sendto" /\ call.mem[i].o /\ ~HasInit))
+        hist[i][j].n \in Repl => (opt.mode = "replicaonly" \/ (opt.mode = "sendto" /\ OptedIn(i)))
 \* a selector answer outside the candidate list sends the command to the primary (first send of the member, on the
 \* topology learned at that moment)
 OutOfRangeFallsBackToPrimary ==
     (Active /\ opt.mode = "sendto" /\ opt.selKind \in {"rns", "rs"} /\ pk # <<>> /\ ~HasInit) => \A i \in Mem :
-        (Keyed(i) /\ call.mem[i].o /\ pg[i] # <<>>) =>
+        (Keyed(i) /\ OptedIn(i) /\ pg[i] # <<>>) =>
             LET cand == IF opt.selKind = "rns" THEN pg[i] ELSE Tail(pg[i]) IN
             IF opt.selIdx \in 0..(Len(cand) - 1) THEN pk[i] = cand[opt.selIdx + 1] ELSE pk[i] = pg[i][1]
 
@@ -470,5 +525,5 @@ NoResendAfterDenied ==
         ~(hist[i][j].rep \in {"retry", "neterr"} /\ i \in call.deny /\ opt.retryOn /\ (Retryable(i) \/ CacheK))
 
 \* the view used by model-checking configs: the script is a history variable
-MCView == <<envv, inj, opt, mapv, lazy, callv, obsv, calls, changes>>
+MCView == <<envv, inj, opt, mapv, lazy, callv, obsv, calls, changes, pool>>
 =============================================================================
